@@ -1,4 +1,5 @@
 import CardVerif.Props.C11
+import CardVerif.Props.C11b
 /-! Axiom audit for C11 (gin: how a game ends and scores). -/
 #print axioms CardVerif.C11.pass_draw_never_end
 #print axioms CardVerif.C11.discard_end
@@ -6,3 +7,6 @@ import CardVerif.Props.C11
 #print axioms CardVerif.C11.decline_end
 #print axioms CardVerif.C11.winner_zero
 #print axioms CardVerif.Gin.reach_goodScore
+#print axioms CardVerif.C11.discard_end_from
+#print axioms CardVerif.C11.winner_zero_from
+#print axioms CardVerif.C11.counters_from
